@@ -80,10 +80,11 @@ fn real_main() -> i32 {
             let n0: usize = args.get(4).and_then(|s| s.parse().ok()).unwrap_or(10);
             let n1: usize = args.get(5).and_then(|s| s.parse().ok()).unwrap_or(10);
             let mut lines = vec![];
-            for e in sverif::ub::make_corpus(seed, n0, false) { lines.push(e.to_string()); }
-            for e in sverif::ub::make_corpus(seed.wrapping_add(1), n1, true) { lines.push(e.to_string()); }
+            let native = !args.iter().any(|a| a == "--no-native");
+            for e in sverif::ub::make_corpus(seed, n0, false, native) { lines.push(e.to_string()); }
+            for e in sverif::ub::make_corpus(seed.wrapping_add(1), n1, true, native) { lines.push(e.to_string()); }
             let n2: usize = args.get(6).and_then(|s| s.parse().ok()).unwrap_or(0);
-            for e in sverif::ub::make_cut_under_corpus(seed.wrapping_add(2), n2) { lines.push(e.to_string()); }
+            for e in sverif::ub::make_cut_under_corpus(seed.wrapping_add(2), n2, native) { lines.push(e.to_string()); }
             if std::fs::write(&args[2], lines.join("\n") + "\n").is_err() { eprintln!("cannot write {}", args[2]); return 3; }
             println!("{}", lines.len());
             0
